@@ -701,6 +701,30 @@ async fn probe_ratelimit(input: &Value) {
 	out(json!({"ok": true, "limiter": limiter_state(&rl), "calls": calls}));
 }
 
+/// What is on disk at `path`: existence, run-length encoded content, mode, owner.
+fn observe_file(path: &str) -> Value {
+	use std::os::unix::fs::MetadataExt;
+	match std::fs::metadata(path) {
+		Ok(md) => {
+			let data = std::fs::read(path).unwrap_or_default();
+			let mut runs: Vec<Value> = vec![];
+			let mut i = 0;
+			while i < data.len() && runs.len() < 64 {
+				let b = data[i];
+				let mut j = i;
+				while j < data.len() && data[j] == b {
+					j += 1;
+				}
+				runs.push(json!([b, j - i]));
+				i = j;
+			}
+			json!({"exists": true, "len": data.len(), "runs": runs, "mode": md.mode() & 0o7777,
+				"uid": md.uid(), "gid": md.gid()})
+		}
+		Err(_) => json!({"exists": false}),
+	}
+}
+
 async fn probe_storage(input: &Value) {
 	// {"fm": {...}, "ops": [{"type":"pk|crt|account","fill":65,"len":1024}]}
 	let f = &input["fm"];
@@ -744,7 +768,20 @@ async fn probe_storage(input: &Value) {
 		let t = op["type"].as_str().unwrap_or_default().to_string();
 		let r = crate::storage::verif_write(&fm, &t, &data).await;
 		res.push(match r {
-			Ok(p) => json!({"ok": true, "type": t, "path": p, "len": len, "sha": sha256_hex(&data)}),
+			Ok(p) => {
+				// tokio finishes the write on a blocking thread after write_all returned:
+				// look at the file until two consecutive observations agree
+				let mut seen = observe_file(&p);
+				for _ in 0..100 {
+					tokio::time::sleep(Duration::from_millis(3)).await;
+					let again = observe_file(&p);
+					if again == seen {
+						break;
+					}
+					seen = again;
+				}
+				json!({"ok": true, "type": t, "path": p, "len": len, "fill": fill, "sha": sha256_hex(&data), "seen": seen})
+			}
 			Err(e) => json!({"ok": false, "type": t, "error": e.message}),
 		});
 	}
